@@ -143,6 +143,10 @@ def run(case, ctx):
         si, ti = si % len(Ss), ti % len(Ts)
         # (sometimes the root path object the caller has at hand is bound to some other document)
         R = build.path_obj(rterm, source_data={"other": {"x": "unrelated"}}) if (n + len(rterm["parts"])) % 4 == 0 else build.path_obj(rterm)
+        if len(rterm["parts"]) == 1 and rterm["parts"][0]["p"] == "prim" and type(rterm["parts"][0]["v"]) in (str, int) and n % 2 == 1 \
+                and not rterm.get("datum") and not rterm.get("multi"):
+            R = rterm["parts"][0]["v"]  # the root given as the bare key / index (`root / path` accepts it)
+            ctx.count("root-given-as-bare-key")
         ok, _ = call(Ss[si].add_schema, Ts[ti], R)
         if not ok:
             ctx.violate(f"C18/{_.key()}", f"add_schema #{n} raised {_!r}")
